@@ -101,10 +101,46 @@ func (w *wrapperInfo) tierCalls(c *Check, fn *ssa.Function, m string) (fs, rem [
 			if isLoadOfField(recv, fk(engine.TypeKey(w.T), w.RemField)) {
 				rem = append(rem, s)
 			}
+			// the tier may reach a local helper as a parameter (`writeTo(rw.fs, …)`): the helper's call
+			// sites are then the tier calls, and the call inside the helper is what carries the error
+			if prm, ok := recv.(*ssa.Parameter); ok && f != fn {
+				idx := -1
+				for i, q := range f.Params {
+					if q == prm {
+						idx = i
+					}
+				}
+				for _, cs := range c.G.CallersOf(f) {
+					if idx < 0 || idx >= len(cs.Common().Args) || engine.TopFunc(cs.Parent()) != fn {
+						continue
+					}
+					arg := cs.Common().Args[idx]
+					for {
+						if mi, ok := arg.(*ssa.MakeInterface); ok {
+							arg = mi.X
+						} else if ci, ok := arg.(*ssa.ChangeInterface); ok {
+							arg = ci.X
+						} else {
+							break
+						}
+					}
+					if isLoadOfField(arg, fk(engine.TypeKey(w.T), w.FsField)) {
+						fs = append(fs, cs)
+						tierInner[cs] = s
+					}
+					if isLoadOfField(arg, fk(engine.TypeKey(w.T), w.RemField)) {
+						rem = append(rem, cs)
+						tierInner[cs] = s
+					}
+				}
+			}
 		}
 	}
 	return
 }
+
+// tierInner: for a tier call made through a local helper, the call inside the helper that touches the tier.
+var tierInner = map[ssa.CallInstruction]ssa.CallInstruction{}
 
 // siteInTop: the instruction of `top` (a go/call/MakeClosure) through which the nested call executes.
 func siteInTop(c *Check, top *ssa.Function, call ssa.CallInstruction) ssa.Instruction {
@@ -170,6 +206,9 @@ func ruleR08a(c *Check, w *wrapperInfo) {
 		c.Require(!reach, "R08a", key, "every return that may report success is preceded by a write to the "+name+" tier", "Set can report success without having written the "+name+" tier: the result or blob would be missing there (e.g. a stale remote entry survives, or a local-only blob is referenced by a remote result)", pos)
 		// error handed on inside the goroutine
 		for _, cl := range calls {
+			if inner, ok := tierInner[cl]; ok {
+				cl = inner
+			}
 			lit := cl.Parent()
 			if lit == fn {
 				continue
